@@ -226,6 +226,12 @@ EXTRA = [
      "classes nonsense / degenerate / defined) model-checked for structural lemmas; netgen.main run twice per command line and judged by TLC"),
     ("FORCETOOL", ["C13", "C19"], "TLA+ spec ForceTool (EXTENDS Pipeline): the force stage as a state machine ParseArgs -> Load -> AddNoise -> "
      "BuildModel -> SolveKK -> Extract -> ForceAlgorithm -> Write with frame conditions and the gekko_common Model contract; force.main run on files"),
+    ("CANVAS", ["C08"], "TLA+ specs Clip (the Cohen-Sutherland clipping loop of tools/rect/canvas.py transcribed action by action, exact rationals; "
+     "clipped segment = segment /\\ window) and CanvasOps (coordinate map, colour helpers); Canvas.line / interpolate / rgb / color_mix judged by TLC"),
+    ("DRAW", ["C19"], "TLA+ spec Draw: tools/draw scaling (aspect, default, frame fit), affine y-flipped pixel map with round-half-even, bounding "
+     "box, pin/hub points, output name, drawing order; get_floorplan_plot observed through a recording ImageDraw stub and judged by TLC"),
+    ("FLOORSET", ["C15", "C19"], "TLA+ spec FloorSet: a FloorSet instance (blocks, pins, b2b/p2b connections, density) and the FPEF/DIEF design "
+     "its converter must produce (kinds, areas, terminals in both modes, nets, density-scaled weights, die); FloorSetInstance run and judged by TLC"),
     ("NETAPI", ["C04", "C05", "C13"], "TLA+ spec NetApi: the loaded Netlist/Module as a mutable object: mutators, cached views, coherence"),
 ]
 
